@@ -125,7 +125,7 @@ class StlAstParserVisitor(LtlAstParserVisitor, StlParserVisitor):
         out = self.literal_to_fraction(val)
 
         if ctx.unit() is None:
-            unit = 'default'
+            unit = ''
         else:
             unit = ctx.unit().getText()
 
